@@ -36,8 +36,6 @@ func (m *Method) Call(s *Scope, args List, depth int) Object {
 			loc := &WhopLoc{Method: m, Current: i}
 			ws := s.NewScope()
 			ws.Let("~whopper-location~", loc)
-			(c.Wrap.(*Lambda)).Closure = ws
-
 			return c.Wrap.Call(ws, args, depth+1)
 		}
 	}
@@ -72,7 +70,6 @@ func (m *Method) BoundCall(s *Scope, depth int) Object {
 			loc := &WhopLoc{Method: m, Current: i}
 			ws := s.NewScope()
 			ws.Let("~whopper-location~", loc)
-			(c.Wrap.(*Lambda)).Closure = ws
 			if bc, _ := c.Wrap.(BoundCaller); bc != nil {
 				return bc.BoundCall(ws, depth)
 			}
